@@ -205,8 +205,9 @@ def generate(rng, tier):
         ids = not (i == 1 and rng.random() < 0.3)
         if form in ("list", "dict"):
             pass
+        scheme = "https" if rng.random() < 0.2 else "http"
         ops.append({"op": "mk", "kind": "base", "node": len(nodes), "impl": i,
-                    "addr": f"http://h{i}.test:80{i}0", "form": form, "ids": ids})
+                    "addr": f"{scheme}://h{i}.test:80{i}0", "form": form, "ids": ids})
         nodes.append(_GNode("base", False, i, born=len(ops)))
     threaded = rng.random() < 0.33
     nthreads = rng.randint(2, 3) if threaded else 1
